@@ -8,6 +8,7 @@ pub mod fontcase;
 pub mod glyfgraph;
 pub mod iftdrv;
 pub mod iftf1;
+pub mod iftf2;
 pub mod klipdrv;
 pub mod skdrv;
 pub mod capfam;
@@ -37,6 +38,7 @@ pub fn drivers() -> Vec<(&'static str, Driver)> {
         ("capfam", capfam::drive as Driver),
         ("colrgrad", colrgrad::drive as Driver),
         ("colridx", colridx::drive as Driver),
+        ("iftf2", iftf2::drive as Driver),
     ]
 }
 
@@ -311,9 +313,12 @@ pub fn viol_identity(v: &Viol) -> String {
 pub fn narrow(case: &Value, sub: u64) -> Value {
     let mut c = case.clone();
     let batch = matches!(c["driver"].as_str(), Some("ttprog") | Some("cffprog") | Some("cff2prog")) && !c["o1"].is_null();
-    let batch = batch || (c["driver"] == "glyfgraph" && !c["s0"].is_null()) || c["driver"] == "capfam" || c["driver"] == "colrgrad" || c["driver"] == "colridx" || c["family"] == "format1_width";
+    let batch = batch || (c["driver"] == "glyfgraph" && !c["s0"].is_null()) || c["driver"] == "capfam" || c["driver"] == "colrgrad" || c["driver"] == "colridx" || c["family"] == "format1_width" || c["driver"] == "iftf2";
     if batch && c["only"].is_null() {
         c["only"] = json!(sub);
+        if c["driver"] == "iftf2" {
+            c["described"] = json!(iftf2::describe(&c));
+        }
         if c["family"] == "format1_width" {
             c["described"] = json!(if c["big"] == true { iftf1::describe_big(&c) } else { iftf1::describe(&c) });
         }
@@ -342,7 +347,8 @@ pub fn resume_batch(case_json: &str, f: &Failure) -> Option<String> {
         || c["driver"] == "capfam"
         || c["driver"] == "colrgrad"
         || c["driver"] == "colridx"
-        || c["family"] == "format1_width";
+        || c["family"] == "format1_width"
+        || c["driver"] == "iftf2";
     if !batch || !c["only"].is_null() {
         return None;
     }
@@ -617,5 +623,7 @@ pub fn phases(quick: bool) -> Result<Vec<Phase>, String> {
                 "status_maps": lv.maps.iter().map(|i| iftdrv::STATUS_MAPS[*i]).collect::<Vec<_>>(), "rounds": 3}),
         )],
     ));
+    // 5. IFT format-2 entry-chain boundary family (hand-assembled maps, own driver)
+    out.push(vec_phase("iftf2", iftf2::gen_cases(), 1, 0, vec![("iftf2".into(), iftf2::bounds())]));
     Ok(out)
 }
